@@ -2,6 +2,7 @@ package main
 
 import (
 	"fmt"
+	"go/token"
 	"go/types"
 	"strings"
 
@@ -116,6 +117,76 @@ func rulesC07(c *Ctx) {
 		c.Check(b && r, "R1", "fscache.(Cache)."+q+" consults both sides", f.Pos(), "buffer."+q+" and remote."+q, "the query does not ask both the buffer and the remote with "+q)
 	}
 
+	// buffer first, also for refusals: a read operation fails on the strength of an answer that
+	// includes the remote (the remote itself, or a query of the cache that asks it) only where the
+	// buffer is known not to hold the path - a pending write must not be hidden by what the remote still has
+	{
+		remoteMemo := map[*ssa.Function]int{}
+		var consultsRemote func(g *ssa.Function, d int) bool
+		consultsRemote = func(g *ssa.Function, d int) bool {
+			if g == nil || g.Blocks == nil || d > 3 {
+				return false
+			}
+			if r, ok := remoteMemo[g]; ok {
+				return r == 1
+			}
+			remoteMemo[g] = 2
+			for _, ci := range Calls(g) {
+				if ci.Method != nil && fromField(ci.Recv(), remote) {
+					remoteMemo[g] = 1
+					return true
+				}
+				if ci.Static != nil && ci.Static.Pkg == g.Pkg && ci.Static != srcFS && consultsRemote(ci.Static, d+1) {
+					remoteMemo[g] = 1
+					return true
+				}
+			}
+			return false
+		}
+		for _, mn := range []string{"Reader", "ReadFile", "Lstat"} {
+			f := methods[mn]
+			if f == nil {
+				continue
+			}
+			for _, g := range append([]*ssa.Function{f}, reachableSamePkg(f, 2)...) {
+				if g != f && (g == srcFS || g.Object() == nil || g.Object().Exported()) {
+					continue
+				}
+				gf := factsFor(g)
+				for _, r := range returnsOf(g) {
+					ei := errResultIndex(g.Signature)
+					if ei < 0 || !isNonNilErrValue(resolve(r.Results[ei]), 0) {
+						continue
+					}
+					bad := ""
+					bufferMiss := false
+					for k := range gf.At(r.Block()) {
+						call, isCall := k.v.(*ssa.Call)
+						if !isCall {
+							continue
+						}
+						if call.Call.IsInvoke() {
+							if fromField(call.Call.Value, buffer) && call.Call.Method.Name() == "IsExist" && !k.pol {
+								bufferMiss = true
+							}
+							if fromField(call.Call.Value, remote) && !fromField(call.Call.Value, buffer) {
+								bad = "remote." + call.Call.Method.Name()
+							}
+							continue
+						}
+						if h := call.Call.StaticCallee(); h != nil && h.Pkg == g.Pkg && consultsRemote(h, 0) {
+							bad = fname(h)
+						}
+					}
+					if bad != "" {
+						c.Check(bufferMiss, "R1", fmt.Sprintf("refusal in %s (read path of %s)", fname(g), mn), r.Pos(), "only where the buffer is known not to hold the path",
+							"the operation is refused on the strength of "+bad+", which asks the remote, without the buffer having been found not to hold the path — a file written through the cache over a (removed) remote node cannot be read back")
+					}
+				}
+			}
+		}
+	}
+
 	// ---- R2 listing merges both sides by name ------------------------------------------------------
 	if f := methods["ReadDir"]; f == nil {
 		c.Bad("R2", "fscache.(Cache).ReadDir", 0, "anchor not found")
@@ -178,8 +249,37 @@ func rulesC07(c *Ctx) {
 					}
 				})
 			}
+			// the merge must not rely on the listings being ordered: an ordering comparison between two
+			// Name() results is only sound after both listings were sorted here (memfs lists in creation order)
+			for _, g := range reachableSamePkg(f, 2) {
+				var cmp *ssa.BinOp
+				sorts := 0
+				eachInstr(g, func(_ *ssa.BasicBlock, _ int, in ssa.Instruction) {
+					if bo, isBo := in.(*ssa.BinOp); isBo {
+						switch bo.Op {
+						case token.LSS, token.GTR, token.LEQ, token.GEQ:
+							isName := func(v ssa.Value) bool {
+								call, isCall := resolve(v).(*ssa.Call)
+								return isCall && call.Call.IsInvoke() && call.Call.Method.Name() == "Name"
+							}
+							if isStringy(bo.X.Type()) && isName(bo.X) && isName(bo.Y) && g.Parent() == nil {
+								cmp = bo
+							}
+						}
+					}
+				})
+				for _, ci := range Calls(g) {
+					if ci.Static != nil && ci.Static.Pkg != nil && ci.Static.Pkg.Pkg.Path() == "sort" {
+						sorts++
+					}
+				}
+				if cmp != nil && sorts < 2 {
+					badScan = true
+					why = "the merge compares names with '" + cmp.Op.String() + "', i.e. it assumes both listings are ordered by name, and does not sort them first (the memory buffer lists in creation order)"
+				}
+			}
 			scanOK = sawScan && !badScan
-			if badScan {
+			if badScan && why == "ReadDir does not list both the buffer and the remote" {
 				why = "a scan over a listing does not start at its first element for every entry it is compared with"
 			}
 			if !scanOK || names < 2 {
